@@ -1,4 +1,5 @@
 import MitmVerif.Model.C47
+import MitmVerif.Model.C47_Conv
 import Driver.Proto
 open MitmVerif Driver MitmVerif.C47
 
@@ -81,6 +82,37 @@ structure DState where
   flow : Flow
   fields : Fields
 
+def parseCps (t : String) : Option (List Nat) :=
+  if t = "" then some [] else (t.splitOn ".").mapM (·.toNat?)
+
+def parseScalar (t : String) : Option Scalar :=
+  if t = "n" then some .null else if t = "b" then some .bool else if t = "i" then some .int
+  else if t = "f0" then some (.float false) else if t = "f1" then some (.float true)
+  else if t = "c" then some .container
+  else if t.startsWith "s" then (parseCps (t.drop 1).toString).map Scalar.str
+  else none
+
+def parseItem (t : String) : Option Item :=
+  if t = "o" then some .other
+  else if t.startsWith "s" then (parseCps (t.drop 1).toString).map Item.str
+  else none
+
+def parseElem (t : String) : Option Elem :=
+  if t = "x" then some .notSeq
+  else match t.splitOn "," with
+    | "q" :: items => (items.mapM parseItem).map Elem.seq
+    | _ => none
+
+def parseContainer (t : String) : Option Container :=
+  if t = "N" then some .notIterable
+  else if t.startsWith "C" then ((t.drop 1).toString.toNat?).map Container.chars
+  else if t.startsWith "K" then ((t.drop 1).toString.toNat?).map Container.keys
+  else match t.splitOn ";" with
+    | "L" :: elems => (elems.mapM parseElem).map Container.list
+    | _ => none
+
+def showOuts (l : List Bool) : String := String.ofList (l.map fun b => if b then '+' else '-')
+
 def step (st : DState) (line : String) : DState × String :=
   let σ := st.flow
   match fields line with
@@ -104,6 +136,14 @@ def step (st : DState) (line : String) : DState × String :=
       let s := match status with | .ok => "ok" | .refused400 => "refused" | .error500 => "error"
       (⟨σ', fs'⟩, s ++ " " ++ showIds σ'.cur ++ " " ++ (match σ'.backup with | none => "none" | some b => showIds b)
         ++ " " ++ showFields fs')
+  | ["conv", "int", t] =>
+    match parseScalar t with
+    | some v => (st, showOuts [intOk v])
+    | none => (st, "bad-op")
+  | ["conv", "hdr", t] =>
+    match parseContainer t with
+    | some c => (st, showOuts (headerOutcomes c))
+    | none => (st, "bad-op")
   | _ => (st, "bad-op")
 
 end C47Driver
